@@ -1839,8 +1839,9 @@ func (p *parser) parseOperand(lhs, allowTuple, allowCmd bool) (x ast.Expr, isTup
 		lparen := p.pos
 		p.next()
 		if allowTuple && p.tok == token.RPAREN { // () => expr
+			rparen := p.pos
 			p.next()
-			return &tupleExpr{opening: lparen, closing: p.pos}, true
+			return &tupleExpr{opening: lparen, closing: rparen}, true
 		}
 		p.exprLev++
 		x = p.parseRHSOrType() // types may be parenthesized: (some type)
@@ -1852,13 +1853,13 @@ func (p *parser) parseOperand(lhs, allowTuple, allowCmd bool) (x ast.Expr, isTup
 				p.next()
 				items = append(items, p.parseRHSOrType())
 			}
-			t := &tupleExpr{opening: lparen, items: items, closing: p.pos}
+			t := &tupleExpr{opening: lparen, items: items}
 			if p.tok == token.ELLIPSIS {
 				t.ellipsis = p.pos
 				p.next()
 			}
 			p.exprLev--
-			p.expect(token.RPAREN)
+			t.closing = p.expect(token.RPAREN)
 			return t, true
 		}
 		p.exprLev--
